@@ -73,8 +73,8 @@ Proof. exact @delta_denote. Qed.
 (* the first out-of-range component raises (numpy: IndexError) *)
 Theorem C19_delta_out_of_range : forall T (K : ops T) (tiny : T) (root : T -> T) ns (i : list Z) (v : T) k,
   ns <> [] -> length i = length ns -> k < length ns ->
-  (nth k i 0 < - Z.of_nat (nth k ns 0) \/ Z.of_nat (nth k ns 0) <= nth k i 0)%Z ->
-  (forall t, t < k -> (- Z.of_nat (nth t ns 0) <= nth t i 0 < Z.of_nat (nth t ns 0))%Z) ->
+  (nth k i 0 < - Z.of_nat (nth k ns 0%nat) \/ Z.of_nat (nth k ns 0%nat) <= nth k i 0)%Z ->
+  (forall t, t < k -> (- Z.of_nat (nth t ns 0%nat) <= nth t i 0 < Z.of_nat (nth t ns 0%nat))%Z) ->
   delta K tiny root ns i v = Err IndexError.
 Proof. exact @delta_out_of_range. Qed.
 
